@@ -2,8 +2,8 @@
 
 proof:          coq/props/C10.v (normalize_respell, unicodesub_hexspell, normalize_u_respell, atkeyword_lookup_normalized,
                 atkeyword_respell, important_respell, quote_kind_irrelevant, url_quoting_irrelevant, url_letters_respell,
-                letter_spelling_normalizes, lower_table_ascii) over CssV.Tokenizer / CssV.Respell / Gen.Quote
-tie:            translate/tokenizer.py + translate/quote.py regenerate the regexes, tables and quoting helpers;
+                letter_spelling_normalizes, lower_table_ascii) over CssV.Tokenizer / CssV.Respell / Gen.RespellSites
+tie:            translate/tokenizer.py regenerates the regexes and tables, translate/respellsites.py the site table;
                 the extracted functions (normalize, unicodesub, normalize_u, urivalue, _stringtokenvalue, stringvalue,
                 at-keyword lookup, the match length of the unicodesub regex, priority) are compared with the
                 implementation's functions on exhaustive-small, respelled-name and random inputs
@@ -40,8 +40,9 @@ ESC_OK = ("prop", "imp", "pseudo", "unit", "func", "cfunc", "atkw", "atkwu", "ur
 # kinds whose hex escapes are left out of the all-at-once respelling while a finding about them is open
 # (C10-atkeyword-hex-escape was repaired by b051860: nothing is excluded now)
 HEX_KNOWN = ()
-# open finding C10-nsprefix-literal-escape: a literal escape in a namespace prefix is kept in the prefix
-LIT_KNOWN = ("nsprefix",)
+# kinds whose literal escapes are left out of the all-at-once respelling while a finding about them is open
+# (C10-nsprefix-literal-escape was repaired by 897be56: nothing is excluded now)
+LIT_KNOWN = ()
 
 
 def F(t):
@@ -657,7 +658,7 @@ def e2e_case(args):
         k = pcs[i][0]
         modes = ("q",) if k in ("str", "urlbody") else ("case", "lit", "hex", "mix")
         for mode in modes:
-            for _rep in range(2 if thorough else 1):
+            for _rep in range(3 if thorough else 1):
                 st = rng.getstate()
                 t, ch = respell_at(rng, pcs, {i}, mode)
                 if not ch:
@@ -729,7 +730,7 @@ def shrink_pair(f):
 # ====================================================================== the check
 def run(ctx):
     thorough = ctx.tier == "thorough"
-    ctx.regen("tokenizer", "quote")
+    ctx.regen("tokenizer", "respellsites")
     ctx.coq_build("props/C10.v")
     binary = ctx.ocaml_build("respell")
 
@@ -763,7 +764,7 @@ def run(ctx):
         d = pair_fails(w)
         if d:
             ctx.violation(d, w, sig_text=sig_of(dict(w, hex=w.get("hex", 0), mode=w.get("mode", "-"), kind=w.get("kind", "corpus"))))
-    nsheets = 1500 if thorough else 200
+    nsheets = 3500 if thorough else 200
     seeds = [(ctx.rng.getrandbits(48), thorough) for _ in range(nsheets)]
     res = ctx.pool_map(e2e_case, seeds, procs=6, chunksize=8)
     pairs = sum(r[1] for r in res)
@@ -850,18 +851,21 @@ def replay(ctx, path):
 TRUSTED = [
     "Coq 8.16.1 kernel and VM (vm_compute for the finite checks: 788 544 spellings of url( through the URI regex, "
     "generated-table facts); no native_compute",
-    "translate/tokenizer.py, translate/quote.py, translate/regexlib.py (CPython's re._parser parses the patterns)",
+    "translate/tokenizer.py, translate/regexlib.py (CPython's re._parser parses the patterns); translate/respellsites.py "
+    "(ast walker: its table of token-value sources, normalisers and understood expression shapes is reviewed by hand; the "
+    "29 exemptions of coq/theories/RespellSites.v are reviewed by hand)",
     "extraction (ExtrOcamlBasic only) + ocamlfind ocamlopt, ocaml/respell_driver.ml",
     "harness/props/c10.py: sheet generator, respeller (its notion of a legal hex-escape terminator is the relation "
     "HexRespelling of Respell.v, re-implemented in Python), model extractor (selector names of type/class/id/attribute "
     "items and the @page selector are compared after removing literal escapes: the library keeps their literal text)",
     "CPython 3.12 re / str.lower / str.strip / str.replace as the semantics being modelled",
-    "hypothesised, validated end to end only: that every call site (property names, priorities, pseudo names, units, "
-    "function names, at-rule keywords, margin boxes, url() readers) applies normalize / the token value functions "
-    "(DESIGN C10: names_normalized_at_every_position)",
+    "checked by all_sites_normalised on the regenerated table: every comparison / lookup / store of a name-like token value "
+    "in 18 modules is normalised; NOT proved: that the handlers' control flow between those sites is spelling-independent "
+    "(validated end to end only)",
 ]
 ASSUME = [
     "Print Assumptions for every theorem of props/C10.v: see coverage.print_assumptions (all closed)",
-    "respell_same_model (whole-parser statement) is not proved; the value-level theorems are, the composition is tested",
+    "respell_same_model (whole-parser statement) is not proved as one theorem; proved: the value-level theorems + the checked "
+    "site table (all_sites_normalised); the composition through the handlers' control flow is tested end to end",
     "ASCII letters only (non-ASCII case mapping is outside the property)",
 ]
